@@ -683,8 +683,15 @@ class VectorAwkward:
         if returns in ([float], [bool]):
             return result
 
+        # where the non-coordinate fields carried into the result are taken from
+        fields_source: typing.Any = self
         if all(not isinstance(x, ak.Array) for x in result):
             maybe_record = _yes_record
+            if isinstance(self, ak.Record):
+                fields_source = ak.Array(
+                    self.layout.array[self.layout.at : self.layout.at + 1],
+                    behavior=self.behavior,
+                )
             result = [
                 ak.Array(
                     x.layout.array[x.layout.at : x.layout.at + 1],
@@ -722,7 +729,7 @@ class VectorAwkward:
                 for name in fields:
                     if name not in _azimuthal_fields:
                         names.append(name)
-                        arrays.append(self[name])
+                        arrays.append(fields_source[name])
 
             if any(name in _temporal_fields for name in fields):
                 cls = cls.ProjectionClass4D
@@ -765,7 +772,7 @@ class VectorAwkward:
                 for name in ak.fields(self):
                     if name not in _coordinate_fields:
                         names.append(name)
-                        arrays.append(self[name])
+                        arrays.append(fields_source[name])
 
             return maybe_record(
                 ak.zip(
@@ -813,7 +820,7 @@ class VectorAwkward:
                 for name in fields:
                     if name not in _azimuthal_fields + _longitudinal_fields:
                         names.append(name)
-                        arrays.append(self[name])
+                        arrays.append(fields_source[name])
 
             if any(name in _temporal_fields for name in fields):
                 cls = cls.ProjectionClass4D
@@ -866,7 +873,7 @@ class VectorAwkward:
                 for name in ak.fields(self):
                     if name not in _coordinate_fields:
                         names.append(name)
-                        arrays.append(self[name])
+                        arrays.append(fields_source[name])
 
             return maybe_record(
                 ak.zip(
@@ -922,7 +929,7 @@ class VectorAwkward:
                 for name in ak.fields(self):
                     if name not in _coordinate_fields:
                         names.append(name)
-                        arrays.append(self[name])
+                        arrays.append(fields_source[name])
 
             return maybe_record(
                 ak.zip(
